@@ -168,3 +168,323 @@ Fixpoint run_del (ps : list pcoord) (d : node) : final :=
 
 (* Processor.delete_nodes / delete_gathered_nodes on already gathered coordinates *)
 Definition delete_nodes (cs : list coord) (d : node) : final := run_del (del_order cs) d.
+
+(* ================= part 2: set_value / _apply_change / _update_node =======
+   processor.py 169-343 and 2630-2760 after the fix: commits 2481ae4 (sets),
+   aaea88e (aliases in sequences), f917898 (addressed position + true aliases
+   only); yamlpath/common/nodes.py Nodes.make_new_node / wrap_type 42-253,
+   405-441 with the value formats as an enum (DATE / TIMESTAMP not modelled). *)
+
+Inductive vformat := FBare | FBoolean | FDefault | FDquote | FFloat | FFolded | FInt | FLiteral | FSquote.
+
+(* float(text): an oracle (Section variable), like ast.literal_eval *)
+Inductive flres := FVal (v : pyval) | FFail.
+
+Definition of_outcome {A} (o : outcome A) : res A :=
+  match o with Ok a => ROk a | Raise e => RErr e | OutOfFuel => RErr OracleMiss end.
+
+(* what make_new_node builds before the anchor is attached *)
+Record newnode := mknn {
+  nn_val : pyval;
+  nn_wrapped : bool     (* a ruamel wrapper class (has .anchor, accepts anchor=); false: a bare Python object *)
+}.
+
+Fixpoint mem_str (s : string) (l : list string) : bool :=
+  match l with [] => false | x :: r => String.eqb s x || mem_str s r end.
+
+Definition bool_allowed : list string := ["true"; "false"; "yes"; "no"; "y"; "n"; "t"; "f"; "1"; "0"].
+Definition bool_truthy : list string := ["true"; "yes"; "y"; "t"; "1"].
+
+Definition first_char_is (c : ascii) (s : string) : bool :=
+  match s with String a _ => Ascii.eqb a c | EmptyString => false end.
+
+Section MakeNode.
+Variable lit : string -> outcome litres.
+Variable fl : string -> outcome flres.
+
+Definition conv_str (value : pyval) : res newnode := ROk (mknn (PStr (py_str value)) true).
+
+Definition conv_bool (value : pyval) : res newnode :=
+  match value with
+  | PBool b => ROk (mknn (PInt (Z_of_bool b)) true)
+  | _ =>
+      let s := lower_str (py_str value) in
+      if mem_str s bool_allowed
+      then ROk (mknn (PInt (if mem_str s bool_truthy then 1%Z else 0%Z)) true)
+      else RErr (PyCrash ValueError)
+  end.
+
+Definition conv_float (value : pyval) : res newnode :=
+  let via (t : string) :=
+    rbind (of_outcome (fl t)) (fun r => match r with FVal v => ROk (mknn v true) | FFail => RErr (PyCrash ValueError) end) in
+  match value with
+  | PFloat _ _ => ROk (mknn value true)
+  | PStr s => via s
+  | PInt z => via (str_of_Z z)
+  | PBool b => via (if b then "1" else "0")
+  | PNone | POther _ => RErr (PyCrash ValueError)      (* float(None): TypeError, translated like ValueError *)
+  end.
+
+Definition conv_int (value : pyval) : res newnode :=
+  match value with
+  | PStr s => match py_int s with Some z => ROk (mknn (PInt z) true) | None => RErr (PyCrash ValueError) end
+  | PInt z => ROk (mknn (PInt z) true)
+  | PBool b => ROk (mknn (PInt (Z_of_bool b)) true)
+  | PFloat q _ => ROk (mknn (PInt (Z.quot (Qnum q) (Zpos (Qden q)))) true)
+  | PNone | POther _ => RErr (PyCrash ValueError)      (* int(None): TypeError, translated like ValueError *)
+  end.
+
+(* the `else:` branch: wrap_type, node_is_leaf, from_node, then the format it found *)
+Definition conv_default (value : pyval) : res newnode :=
+  rbind (of_outcome (typed_value lit value)) (fun ast =>
+  match ast with
+  | PStr _ => conv_str value
+  | PInt _ =>
+      match value with
+      | PStr s => match py_int s with Some _ => conv_int value | None => conv_str value end   (* ScalarInt("0x10") raises ValueError *)
+      | _ => conv_int value
+      end
+  | PFloat _ _ => conv_float value
+  | PBool _ => conv_bool value
+  | PNone => ROk (mknn value false)                 (* NoneType / str: the bare value itself *)
+  | POther t =>
+      if first_char_is "["%char t || first_char_is "{"%char t
+      then conv_str value                          (* list / dict literal: not a leaf, or CommentedMap(str) fails *)
+      else ROk (mknn value false)                   (* tuple, bytes, ...: the bare value itself *)
+  end).
+
+Definition conv (fmt : vformat) (value : pyval) : res newnode :=
+  match fmt with
+  | FBare | FDquote | FSquote | FFolded | FLiteral => conv_str value
+  | FBoolean => conv_bool value
+  | FFloat => conv_float value
+  | FInt => conv_int value
+  | FDefault => conv_default value
+  end.
+
+Definition nonempty_anchor (i : info) : option string :=
+  if has_anchor_attr i then
+    match anchor i with Some a => if nonempty a then Some a else None | None => None end
+  else None.
+
+(* Nodes.make_new_node(source_node, value, value_format): [src] = None when the
+   source node is Python's None; [fresh] is the identity of the new object,
+   [vo] the identity of the caller's value object (used when no new object is
+   made) *)
+Definition make_new_node (src : option info) (value : pyval) (fmt : vformat) (fresh vo : N) : res node :=
+  rbind (conv fmt value) (fun nn =>
+  match (match src with Some i => nonempty_anchor i | None => None end) with
+  | Some a =>
+      if nn_wrapped nn then ROk (NLeaf (mkinfo fresh (Some a) true None) (nn_val nn))
+      else match nn_val nn with
+           | PNone => ROk (NLeaf (mkinfo vo None false None) PNone)   (* new_type is NoneType: stays None (fix 2nd nodes.py commit) *)
+           | _ => RErr (PyCrash TypeError)        (* str(value, anchor=...) *)
+           end
+  | None =>
+      if nn_wrapped nn then ROk (NLeaf (mkinfo fresh None true None) (nn_val nn))
+      else ROk (NLeaf (mkinfo vo None false None) (nn_val nn))
+  end).
+
+End MakeNode.
+
+(* ---- ruamel's CommentedMap.__setitem__ / ordereddict.insert on association lists ---- *)
+Definition key_eqb (k0 k : node) : bool :=
+  match k0, k with NLeaf _ a, NLeaf _ b => py_eq a b | _, _ => false end.
+
+Fixpoint od_set (k v : node) (kvs : list (node * node)) : list (node * node) :=
+  match kvs with
+  | [] => [(k, v)]
+  | (k0, v0) :: r => if key_eqb k0 k then (k0, v) :: r else (k0, v0) :: od_set k v r
+  end.
+
+Definition od_insert (pos : nat) (k v : node) (kvs : list (node * node)) : list (node * node) :=
+  if Nat.leb (List.length kvs) pos then od_set k v kvs
+  else snd (fold_left (fun (st : nat * list (node * node)) kv =>
+                         (S (fst st),
+                          od_set (fst kv) (snd kv) (if Nat.eqb (fst st) pos then od_set k v (snd st) else snd st)))
+                      kvs (O, [])).
+
+Section MapI.
+  Context {A B : Type} (f : nat -> A -> B).
+  Fixpoint mapi_from (k : nat) (l : list A) : list B :=
+    match l with [] => [] | x :: r => f k x :: mapi_from (S k) r end.
+End MapI.
+
+(* ---- recurse(data, parent, parentref, reference_node, replacement_node) ---- *)
+Section Recurse.
+Variables (poid : N) (pref : pyval) (roid : N) (repl : node).
+
+Definition is_ref (x : node) : bool := N.eqb (node_oid x) roid.       (* x is reference_node *)
+Definition hattr (x : node) : bool := has_anchor_attr (node_info x).   (* hasattr(x, "anchor") *)
+
+(* keys: `for i, k in [... if key is reference_node and hasattr(key, "anchor")]:
+            data.insert(i, replacement_node, data.pop(k))` *)
+Definition rename_keys (kvs : list (node * node)) : list (node * node) :=
+  match find_idx (fun kv => is_ref (fst kv) && hattr (fst kv)) kvs with
+  | None => kvs
+  | Some i => match nth_error kvs i with
+              | Some kv => od_insert i repl (snd kv) (remove_nth i kvs)
+              | None => kvs
+              end
+  end.
+
+Definition set_update (this_is_parent : bool) (els : list node) : list node :=
+  match find (fun e => is_ref e && (this_is_parent || hattr e)) els with
+  | None => els
+  | Some e =>
+      let v := match e with NLeaf _ v => v | _ => PNone end in
+      let els1 := match find_idx (member_is v) els with Some i => remove_nth i els | None => els end in
+      let rv := match repl with NLeaf _ v => v | _ => PNone end in
+      if existsb (member_is rv) els1 then els1 else els1 ++ [repl]
+  end.
+
+(* The recursion into the values is independent of the keys, so it is written
+   first (pass A); the key replacement and the key-dependent test
+   `k == parentref` follow in the code's order (rename, then pass B). *)
+Fixpoint recurse (data : node) : node :=
+  match data with
+  | NLeaf _ _ => data
+  | NMap i kvs =>
+      let kvsA := map (fun kv => (fst kv, if is_ref (snd kv) then snd kv else recurse (snd kv))) kvs in
+      let kvsR := rename_keys kvsA in
+      NMap i (map (fun kv =>
+                     if is_ref (snd kv) && (hattr (snd kv) || (N.eqb (oid i) poid && key_is pref kv))
+                     then (fst kv, repl) else kv) kvsR)
+  | NSeq i els =>
+      NSeq i (mapi_from (fun idx x =>
+                           if is_ref x && (hattr x || (N.eqb (oid i) poid && py_eq (PInt (Z.of_nat idx)) pref))
+                           then repl else recurse x) O els)
+  | NSet i els => NSet i (set_update (N.eqb (oid i) poid) els)
+  end.
+End Recurse.
+
+(* first container object with identity o *)
+Fixpoint find_obj (o : N) (d : node) : option node :=
+  if is_obj o d then Some d else
+  match d with
+  | NMap _ kvs => fold_right (fun kv acc => match find_obj o (snd kv) with Some x => Some x | None => acc end) None kvs
+  | NSeq _ els => fold_right (fun x acc => match find_obj o x with Some r => Some r | None => acc end) None els
+  | _ => None
+  end.
+
+(* `if isinstance(parent, list) and isinstance(parentref, int) and parentref < 0: parentref += len(parent)` *)
+Definition norm_ref (pn : node) (r : pyval) : pyval :=
+  match pn, as_index r with
+  | NSeq _ els, Some z => if (z <? 0)%Z then PInt (z + Z.of_nat (List.length els)) else r
+  | _, _ => r
+  end.
+
+(* change_node: the member == parentref of a set (None when absent), else parent[parentref] *)
+Definition get_change (pn : node) (r : pyval) : res (option node) :=
+  match pn with
+  | NSet _ els => ROk (find (member_is r) els)
+  | NMap _ kvs => match find (key_is r) kvs with Some kv => ROk (Some (snd kv)) | None => RErr (PyCrash KeyError) end
+  | NSeq _ els =>
+      match as_index r with
+      | None => RErr (PyCrash TypeError)
+      | Some z =>
+          let len := Z.of_nat (List.length els) in
+          let z' := if (z <? 0)%Z then (z + len)%Z else z in
+          if ((0 <=? z') && (z' <? len))%Z then
+            match nth_error els (Z.to_nat z') with Some x => ROk (Some x) | None => RErr (PyCrash IndexError) end
+          else RErr (PyCrash IndexError)
+      end
+  | NLeaf _ _ => RErr (PyCrash TypeError)
+  end.
+
+Definition state := (node * N)%type.     (* document, next unused object identity *)
+
+Section SetValue.
+Variable lit : string -> outcome litres.
+Variable fl : string -> outcome flres.
+
+(* Processor._update_node(parent, parentref, value, value_format) *)
+Definition update_node (p : pcoord) (value : pyval) (fmt : vformat) (vo : N) (st : state) : res state :=
+  let (d, next) := st in
+  match pc_parent p with
+  | None => ROk st                                      (* `if parent is None: return` *)
+  | Some o =>
+      match find_obj o d with
+      | None => ROk st                                  (* parent object no longer in the document (not modelled further) *)
+      | Some pn =>
+          let r := norm_ref pn (pc_ref p) in
+          rbind (get_change pn r) (fun chg =>
+          rbind (make_new_node lit fl (option_map node_info chg) value fmt next vo) (fun new =>
+          match chg with
+          | None => ROk (d, N.succ next)               (* reference_node is None: nothing in a loaded document is replaced *)
+          | Some c => ROk (recurse o r (node_oid c) new d, N.succ next)
+          end))
+      end
+  end.
+
+(* the [name()] branch of _apply_change: rename a key *)
+Definition rename_key (p : pcoord) (value : pyval) (vo : N) (d : node) : res node :=
+  match pc_parent p with
+  | None => RErr (YPE Generic)
+  | Some o =>
+      app_obj o (fun pn =>
+        match pn with
+        | NMap i kvs =>
+            if existsb (key_is value) kvs then RErr (YPE DuplicateKey)
+            else match find_idx (key_is (pc_ref p)) kvs with
+                 | Some idx =>
+                     match nth_error kvs idx with
+                     | Some kv => ROk (NMap i (od_insert idx (NLeaf (mkinfo vo None false None) value) (snd kv)
+                                                         (remove_nth idx kvs)))
+                     | None => ROk pn
+                     end
+                 | None => ROk pn
+                 end
+        | _ => RErr (YPE Generic)
+        end) d
+  end.
+
+(* one leaf action of _apply_change *)
+Record action := mkact { a_pc : pcoord; a_name : bool; a_fmt : vformat }.
+
+(* _apply_change's unwrapping: a wrapped NodeCoords is applied first (with the
+   keyword arguments already popped: DEFAULT format) and then the outer
+   coordinate as well; a Collector list is expanded (DEFAULT format) and the
+   outer coordinate is NOT applied *)
+Fixpoint set_actions (fmt : vformat) (c : coord) : list action :=
+  match c with
+  | CNode p nk => [mkact p nk fmt]
+  | CList cs _ _ => flat_map (set_actions FDefault) cs
+  | CWrap c p nk => set_actions FDefault c ++ [mkact p nk fmt]
+  end.
+
+Definition apply_action (value : pyval) (vo : N) (a : action) (st : state) : res state :=
+  if a_name a then rbind (rename_key (a_pc a) value vo (fst st)) (fun d' => ROk (d', snd st))
+  else match update_node (a_pc a) value (a_fmt a) vo st with
+       | RErr (PyCrash ValueError) => RErr (YPE TypeMismatch)     (* except ValueError -> TypeMismatchYAMLPathException *)
+       | r => r
+       end.
+
+Inductive sfinal := SDone (st : state) | SFailed (st : state) (e : exn).
+
+Fixpoint run_actions (value : pyval) (vo : N) (acts : list action) (st : state) : sfinal :=
+  match acts with
+  | [] => SDone st
+  | a :: r => match apply_action value vo a st with
+              | ROk st' => run_actions value vo r st'
+              | RErr e => SFailed st e
+              end
+  end.
+
+(* Processor.set_value on the coordinates handed to _apply_change; [vo] = identity
+   of the caller's value object when the document already holds that object *)
+Definition set_value (cs : list coord) (value : pyval) (fmt : vformat) (vo : option N) (st : state) : sfinal :=
+  let (d, next) := st in
+  let '(vo', next') := match vo with Some o => (o, next) | None => (next, N.succ next) end in
+  run_actions value vo' (flat_map (set_actions fmt) cs) (d, next').
+
+End SetValue.
+
+Fixpoint max_oid (d : node) : N :=
+  match d with
+  | NLeaf i _ => oid i
+  | NMap i kvs => fold_right (fun kv acc => N.max (N.max (max_oid (fst kv)) (max_oid (snd kv))) acc) (oid i) kvs
+  | NSeq i els => fold_right (fun x acc => N.max (max_oid x) acc) (oid i) els
+  | NSet i els => fold_right (fun x acc => N.max (max_oid x) acc) (oid i) els
+  end.
+Definition init_state (d : node) : state := (d, N.succ (max_oid d)).
